@@ -289,6 +289,61 @@ static const struct gram catalogue[] = {
       { 5, 1, { 0 }, NULL, 0, 1, { 0 } },
       { 5, 3, { 2, 5, 3 }, NULL, 0, 1, { 1 } },
       { 5, 3, { 2, 4, 3 }, "x", 1, 2, { 0, 2 } } } },
+  /* 34: G35 the same phrase C re-entered after different openers in a list: the Earley set after 'p' is the same for both
+     openers, so the goto cache is consulted with origins that differ only in the first start situation
+     L : I L # l(0 1) | z ; I : a C d # A(0 1 2) | b C d # B(0 1 2) ; C : p q # C(0 1) */
+  { "G35", 9, { T ("a", 'a'), T ("b", 'b'), T ("p", 'p'), T ("q", 'q'), T ("d", 'd'), T ("z", 'z'), N ("L"), N ("I"), N ("C") }, 5,
+    { { 6, 2, { 7, 6 }, "l", 1, 2, { 0, 1 } },
+      { 6, 1, { 5 }, NULL, 0, 1, { 0 } },
+      { 7, 3, { 0, 8, 4 }, "A", 1, 3, { 0, 1, 2 } },
+      { 7, 3, { 1, 8, 4 }, "B", 1, 3, { 0, 1, 2 } },
+      { 8, 2, { 2, 3 }, "C", 1, 2, { 0, 1 } } } },
+  /* 35: G36 items with a left-recursive body of varying length in a list: origin sets with equal cores but different distances
+     S : I | S I # s(0 1) ; I : p Z x # px(1) | q Z y # qy(1) ; Z : z | Z z # zz(0 1) | Z D # zd(0 1) ; D : d e # de */
+  { "G36", 11, { T ("p", 'p'), T ("q", 'q'), T ("x", 'x'), T ("y", 'y'), T ("z", 'z'), T ("d", 'd'), T ("e", 'e'), N ("S"), N ("I"), N ("Z"), N ("D") }, 8,
+    { { 7, 1, { 8 }, NULL, 0, 1, { 0 } },
+      { 7, 2, { 7, 8 }, "s", 1, 2, { 0, 1 } },
+      { 8, 3, { 0, 9, 2 }, "px", 1, 1, { 1 } },
+      { 8, 3, { 1, 9, 3 }, "qy", 1, 1, { 1 } },
+      { 9, 1, { 4 }, NULL, 0, 1, { 0 } },
+      { 9, 2, { 9, 4 }, "zz", 1, 2, { 0, 1 } },
+      { 9, 2, { 9, 10 }, "zd", 1, 2, { 0, 1 } },
+      { 10, 2, { 5, 6 }, "de", 1, 0, { 0 } } } },
+  /* 36: G37 FIRST sets settle in two passes (every chain rule starts with a terminal) while FOLLOW has to travel down a chain
+     of last-symbol nonterminals that are numbered against the direction of travel
+     S : A x # s(0) ; F : f | f f # ff(0 1) ; E : e F # E(0 1) ; D : d E # D(0 1) ; C : c D # C(0 1) ; B : b C # B(0 1) ; A : a B # A(0 1) */
+  { "G37", 14, { T ("x", 'x'), T ("f", 'f'), T ("e", 'e'), T ("d", 'd'), T ("c", 'c'), T ("b", 'b'), T ("a", 'a'),
+                 N ("S"), N ("A"), N ("F"), N ("E"), N ("D"), N ("C"), N ("B") }, 8,
+    { { 7, 2, { 8, 0 }, "s", 1, 1, { 0 } },
+      { 9, 1, { 1 }, NULL, 0, 1, { 0 } },
+      { 9, 2, { 1, 1 }, "ff", 1, 2, { 0, 1 } },
+      { 10, 2, { 2, 9 }, "E", 1, 2, { 0, 1 } },
+      { 11, 2, { 3, 10 }, "D", 1, 2, { 0, 1 } },
+      { 12, 2, { 4, 11 }, "C", 1, 2, { 0, 1 } },
+      { 13, 2, { 5, 12 }, "B", 1, 2, { 0, 1 } },
+      { 8, 2, { 6, 13 }, "A", 1, 2, { 0, 1 } } } },
+  /* 37: G38 eleven terminals; the dynamic-lookahead contexts of X ({q}, {s}, {u}, {w}) differ only in late-numbered terminals
+     S : A | S A # s(0 1) ; A : p X q # pq(1) | r X s # rs(1) | t X u # tu(1) | v X w # vw(1) ; X : i | i j # ij(0 1) | k */
+  { "G38", 14, { T ("i", 'i'), T ("j", 'j'), T ("k", 'k'), T ("p", 'p'), T ("r", 'r'), T ("t", 't'), T ("v", 'v'), T ("q", 'q'), T ("s", 's'), T ("u", 'u'), T ("w", 'w'),
+                 N ("S"), N ("A"), N ("X") }, 9,
+    { { 11, 1, { 12 }, NULL, 0, 1, { 0 } },
+      { 11, 2, { 11, 12 }, "s", 1, 2, { 0, 1 } },
+      { 12, 3, { 3, 13, 7 }, "pq", 1, 1, { 1 } },
+      { 12, 3, { 4, 13, 8 }, "rs", 1, 1, { 1 } },
+      { 12, 3, { 5, 13, 9 }, "tu", 1, 1, { 1 } },
+      { 12, 3, { 6, 13, 10 }, "vw", 1, 1, { 1 } },
+      { 13, 1, { 0 }, NULL, 0, 1, { 0 } },
+      { 13, 2, { 0, 1 }, "ij", 1, 2, { 0, 1 } },
+      { 13, 1, { 2 }, NULL, 0, 1, { 0 } } } },
+  /* 38: G39 the same terminal reached through a unit-rule chain, directly, and in front of another terminal: at lookahead 2
+     the contexts of the predicted situations need a second pass
+     S : b # s3(0) | C | A x # s1(0 1) ; C : A # c(0) ; A : b # a(0) */
+  { "G39", 5, { T ("b", 'b'), T ("x", 'x'), N ("S"), N ("C"), N ("A") }, 5,
+    { { 2, 1, { 0 }, "s3", 1, 1, { 0 } },
+      { 2, 1, { 3 }, NULL, 0, 1, { 0 } },
+      { 2, 2, { 4, 1 }, "s1", 1, 2, { 0, 1 } },
+      { 3, 1, { 4 }, "c", 1, 1, { 0 } },
+      { 4, 1, { 0 }, "a", 1, 1, { 0 } } } },
 };
 #define N_CATALOGUE ((int) (sizeof (catalogue) / sizeof (catalogue[0])))
 
